@@ -43,6 +43,18 @@ Theorem c15_first_end_refuted :
 Proof. exact first_end_refuted. Qed.
 Print Assumptions c15_first_end_refuted.
 
+(* the pinned code away from its defects: a client that never sends a further
+   message (it reads, closes or drops) cannot crash the server *)
+Theorem c15_pinned_no_crash_without_followups : forall m0 n acts s,
+  Forall no_send acts -> run pinned (init m0 n) acts = Some s -> crashed s = false.
+Proof. exact pinned_no_crash_without_followups. Qed.
+Print Assumptions c15_pinned_no_crash_without_followups.
+
+Example c15_pinned_no_followups_example :
+  exists acts s, Forall no_send acts /\ run pinned (init (MReq 0) 1) acts = Some s /\ census s = 0.
+Proof. exact pinned_no_followups_example. Qed.
+Print Assumptions c15_pinned_no_followups_example.
+
 (* ---- every message, in order, then the normal close ------------------------ *)
 
 (* both variants, every reachable state: on a service channel that one request
@@ -154,3 +166,17 @@ Theorem c15_bystander_refuted :
     sstep pinned s (1, WrFwd) = None.
 Proof. exact bystander_refuted. Qed.
 Print Assumptions c15_bystander_refuted.
+
+(* ---- the trace validator used by the correspondence -------------------------- *)
+
+(* every state the validator holds after a list of observed events is reachable in
+   the transition system: an observation it accepts is something the model can do *)
+Theorem c15_explain_reachable : forall fx m0 n evs res,
+  explain fx m0 n evs = Some res -> forall s, In s res -> exists acts, run fx (init m0 n) acts = Some s.
+Proof. exact explain_reachable. Qed.
+Print Assumptions c15_explain_reachable.
+
+Theorem c15_explain_fixed_never_crashed : forall m0 n evs res,
+  explain fixed m0 n evs = Some res -> forall s, In s res -> crashed s = false.
+Proof. exact explain_fixed_never_crashed. Qed.
+Print Assumptions c15_explain_fixed_never_crashed.
